@@ -173,8 +173,12 @@ pub fn ck_remove_n(len: usize, n: usize, depth: usize) {
         if let Ok(it) = r {
             // removed values are yielded top-most first
             let got: Vec<Value> = it.collect();
-            let t = top(&s, depth);
-            assert!(same(&got, &rev(&t[..n])));
+            if n == 0 {
+                assert!(got.is_empty());
+            } else {
+                let t = top(&s, depth);
+                assert!(same(&got, &rev(&t[..n])));
+            }
         }
     }
     if n == 0 {
